@@ -292,6 +292,69 @@ def run(ctx):
     ctx.add_exploration('asceprovider.AssociationRequester._request', request_case, res,
                         target='asceprovider.AssociationRequester._request')
 
+    # ------------------------------------------------------------------ (B') request(): the caller of _request
+    # _request takes the two entities as arguments; request() is what decides which is which.  _request is a
+    # recording stub here (its contract is (B)+(C)): it is called once with the local entity first and the
+    # remote entity second, the association counts as established only after it returned, and a refusal
+    # (any exception of _request) leaves it not established.
+    def request_wrapper_case(p):
+        label = 'asceprovider.AssociationRequester.request'
+        ob = obl(p, label)
+        cfg = nego.install_cfg(it)
+        remote = DictVal([('key', 'aet', p.fresh('remote_aet', smt.Str)), ('key', 'address', p.fresh('address', smt.Str)),
+                          ('key', 'port', p.fresh_int('port'))])
+        me = nego.new_requester(it, cfg, 16384, [], DictVal(), remote)
+        ae = me.fields['ae']
+        local = DictVal([('key', 'aet', p.fresh('local_aet', smt.Str)), ('key', 'address', p.fresh('node', smt.Str))])
+        ae.fields['local_ae'] = local
+        n_served = p.choose([True, True, True], 'number of classes served as SCP')
+        ae.fields['supported_scp'] = DictVal([('key', '1.2.3.%d' % i, Opaque('service %d' % i)) for i in range(n_served)])
+        log = []
+        reply = Opaque('A-ASSOCIATE-AC')
+        refused = p.branch(p.fresh('peer_refuses', smt.Bool))
+
+        def fake_request(it2, a, kw):
+            log.append(('_request', tuple(a[1:]), dict(kw), me.fields['association_established']))
+            if refused:
+                excm = it2.modules['pynetdicom2.exceptions']
+                raise Raised(it2.instantiate(excm.attrs['AssociationRejectedError'], [1, 1, 1], {}))
+            return reply
+
+        def on_response(it2, a, kw):
+            log.append(('on_association_response', tuple(a[1:]), me.fields['association_established']))
+        me.cls = ClassVal('RequesterUnderTest', [asc.attrs['AssociationRequester']],
+                          {'_request': nego.method(fake_request)}, 'harness')
+        ae.cls = ClassVal('AEConfigStub2', [ae.cls], {'on_association_response': nego.method(on_response)}, 'harness')
+        raised = None
+        try:
+            it.call(asc.attrs['AssociationRequester'].lookup('request')[0], [me], {})
+        except Raised as r:
+            raised = r.exc.cls.name
+        reqs = [e for e in log if e[0] == '_request']
+        ob('negotiates-once', len(reqs) == 1)
+        if len(reqs) == 1:
+            a = reqs[0][1]
+            ob('local-entity-is-the-calling-side', len(a) >= 1 and a[0] is local)
+            ob('remote-entity-is-the-called-side', len(a) >= 2 and a[1] is remote)
+            ob('not-established-before-the-reply', reqs[0][3] is False)
+            extra = reqs[0][2].get('users_pdu') if len(a) < 3 else a[2]
+            items = list(extra.items) if isinstance(extra, ListVal) else []
+            roles = [x for x in items if isinstance(x, Obj) and x.cls.name == 'ScpScuRoleSelectionSubItem']
+            ob('one-role-selection-item-per-class-served-as-scp', len(roles) == n_served and len(items) == n_served)
+        if refused:
+            ob('refusal-propagates', raised == 'AssociationRejectedError')
+            ob('refused-association-is-not-established', me.fields['association_established'] is False)
+        else:
+            ob('noexc', raised is None)
+            told = [e for e in log if e[0] == 'on_association_response']
+            ob('application-sees-the-reply', len(told) == 1 and told[0][1][:1] == (reply,))
+            ob('established-after-an-accepting-reply', me.fields['association_established'] is True)
+        p.outcome = 'normal'
+    fv, _ = verify.lookup_function(it, 'asceprovider.AssociationRequester.request')
+    infos.append(verify.function_info(it, fv))
+    ctx.add_exploration('asceprovider.AssociationRequester.request', request_wrapper_case, res,
+                        target='asceprovider.AssociationRequester.request')
+
     # ------------------------------------------------------------------ (D) get_scu
     def get_scu_case(p):
         label = 'asceprovider.AssociationRequester.get_scu'
